@@ -98,7 +98,7 @@ Proof.
   destruct (lift_all cfg_fixed _ _ _) as [[s5 o5]| |] eqn:E5; simpl in H; try discriminate.
   destruct (release_answers cfg_fixed _ _) as [[s6 o6]| |] eqn:E6; simpl in H; try discriminate.
   inversion H; subst. repeat rewrite resp_app.
-  rewrite (quiet_release_all_args _ _ _ _ _ E1), (quiet_lappres _), (quiet_fail_questions _ _),
+  rewrite (quiet_release_all_args _ _ _ _ _ E1), (quiet_fail_questions _ _),
           (quiet_release_caps _ _ _ _ _ E4), (quiet_lift_all _ _ _ _ _ E5), (quiet_release_answers _ _ _ _ E6).
   reflexivity.
 Qed.
